@@ -247,6 +247,8 @@ CHECKS = {
         "parts": [
             {"name": "rapid", "pkg": "proxy", "run": "^TestVF_C08_Rapid$",
              "checks": {"quick": 2500, "thorough": 25000}, "shards": {"quick": 4, "thorough": 16}},
+            {"name": "intraproxy", "pkg": "proxy", "run": "^TestVF_C08_IntraProxy$",
+             "checks": {"quick": 600, "thorough": 6000}, "shards": {"quick": 2, "thorough": 8}},
         ],
     },
     "C09": {
